@@ -161,6 +161,13 @@ def oracle(ctx, kind, p):
                       'indicate_branches', 'check', 'triples'):
                 o[k] = False
             o['reconfigure'] = o['rearrange'] = o['make_variables'] = None
+        elif p['i'] % 9 == 4:
+            # --triples and nothing else that changes content
+            for k in ('canonicalize_roles', 'reify_edges', 'dereify_edges', 'reify_attributes',
+                      'indicate_branches', 'check'):
+                o[k] = False
+            o['reconfigure'] = o['rearrange'] = o['make_variables'] = None
+            o['triples'] = True
         fmt = o['make_variables']
         like = generated_like(fmt, set('abcdefghijklmnopqrstuvwxyz_')) if fmt else None
         # ---- input stream
@@ -192,7 +199,7 @@ def oracle(ctx, kind, p):
                     node = over(node)
                     ctx.count('over_inverted_streams')
                 if messy:
-                    node = T.mangle(rng, node, rm)
+                    node = T.mangle(rng, node, rm, special_inverse=False)   # (':instance-of v' makes graphs that cannot be laid out)
                     if any(n[0] is None for n in T.nodes(node)):
                         continue    # nested empty nodes have no variable to relabel (outside C10/C20)
                 meta = {'id': f'{fi}.{j}'} if rng.random() < 0.5 else {}
@@ -201,6 +208,10 @@ def oracle(ctx, kind, p):
                 trees.append(Tree(node, metadata=meta))
                 nodes_by_file[-1].append(node)
             texts_ = [penman.format(t, indent=rng.choice([None, -1, 2])) for t in trees]
+            # hand-written comment lines (not produced by the library's formatter): an empty key with a
+            # value, two keys on one line
+            texts_ = [(rng.choice(['# :: remark 3\n', '# ::a 1 ::b 2\n', '# ::k\n']) if rng.random() < 0.2 else '') + x
+                      for x in texts_]
             if messy:
                 import re as _re
                 texts_ = [_re.sub(r'~(e\.)?(\d)\b', lambda m: '~' + (m.group(1) or '') + '0' + m.group(2), x)
@@ -286,6 +297,49 @@ def oracle(ctx, kind, p):
                 got = [G.graph_content(g, rm) for g in gs]
                 if got != want:
                     ctx.fail('no-options:output-decodes-differently', detail=dict(det, out=out[:500]))
+        if o['triples'] and not normal and not o['check'] and not messy and not why:
+            # --triples without normalisation prints the triples of the documented reading, in order
+            blocks = [b for b in out.split('\n\n') if b.strip()]
+            exp_blocks = []
+            for nd in nodes:
+                _top, trs, _occ = interp.interpret(nd, rm)
+                exp_blocks.append(' ^\n'.join(f'{r_[1:]}({s_}, {t_})' for s_, r_, t_ in trs))
+            ctx.count('triples_reading_runs')
+            # (the line style - one triple per line or all on one line - is a formatting option, and the
+            #  separator between the graphs of different files is not fixed, O8: compare the flat sequence)
+            import re as _re2
+            got_flat = _re2.sub(r'[ \n]+', ' ', out).strip()
+            want_flat = _re2.sub(r'[ \n]+', ' ', '\n\n'.join(exp_blocks)).strip()
+            if got_flat != want_flat:
+                k = next((i for i, (a_, b_) in enumerate(zip(got_flat, want_flat)) if a_ != b_),
+                         min(len(got_flat), len(want_flat)))
+                ctx.fail('--triples!=documented-reading', detail=dict(
+                    det, at=k, got=got_flat[max(0, k - 80):k + 80], want=want_flat[max(0, k - 80):k + 80]))
+        if set(normal) <= {'rearrange'} and not o['triples'] and not o['check'] and not messy:
+            # the same, by the documented reading of input and output texts (no library call): the
+            # graphs *and their metadata* are those of the input, also after --rearrange
+            def ref_read(text):
+                res = []
+                for nd, meta in R.ref_iterparse(text):
+                    top, triples, _occ = interp.interpret(nd, rm)
+                    vs_ = interp.tree_vars(nd)
+                    res.append((top, sorted(vs_, key=repr), G.content(triples, vs_, rm), sorted(meta.items())))
+                return res
+            try:
+                want_r = [x for c in chunks for x in ref_read(c)]
+                got_r = ref_read(out)
+            except R.Reject as e:
+                ctx.fail('output-not-in-the-documented-language', detail=dict(det, out=out[:500], exc=repr(e)))
+            else:
+                ctx.count('reference_reading_runs')
+                if got_r != want_r:
+                    k = next((i for i, (a_, b_) in enumerate(zip(got_r, want_r)) if a_ != b_), min(len(got_r), len(want_r)))
+                    what = 'count' if len(got_r) != len(want_r) else \
+                        ['top', 'variables', 'triples', 'metadata'][next(j for j in range(4) if got_r[k][j] != want_r[k][j])]
+                    ctx.fail('output-reads-differently-from-input', mech=what + (' --rearrange' if normal else ''),
+                             detail=dict(det, out=out[:500], graph=k, differs_in=what,
+                                         got=repr(got_r[k] if k < len(got_r) else None)[:400],
+                                         want=repr(want_r[k] if k < len(want_r) else None)[:400]))
         # ---- (2) formatting options never change content
         if not o['triples'] and not uses_random(o):
             o2 = dict(o, indent_arg=rng.choice(['no', '0', '5', '-1']), compact=not o['compact'])
